@@ -112,7 +112,7 @@ class Worker:
     """One run_in_executor job."""
 
     __slots__ = ('sim', 'wid', 'func', 'args', 'fut', 'done', 'result', 'exc', 'blocked_until',
-                 'steps', 'pt', 'tag', 'started', 'at_seam', 'origin')
+                 'steps', 'pt', 'tag', 'started', 'at_seam', 'origin', 'release_on')
 
     def __init__(self, sim, wid, func, args, fut):
         self.sim, self.wid, self.func, self.args, self.fut = sim, wid, func, args, fut
@@ -124,6 +124,7 @@ class Worker:
         self.pt = None
         self.started = False
         self.at_seam = None
+        self.release_on = False
         self.tag = getattr(func, '__qualname__', None) or getattr(
             getattr(func, 'func', None), '__qualname__', repr(func))
         # who asked for the job: the qualified name of the coroutine of the submitting task
@@ -242,12 +243,18 @@ class Sim:
             if self.preempt:
                 p = self.stall_p
                 sb = self.stall_boost
-                if sb and w.tag.endswith(sb[0]) and (len(sb) < 3 or sb[2] in w.origin):
+                boosted = bool(sb and w.tag.endswith(sb[0]) and (len(sb) < 3 or sb[2] in w.origin))
+                if boosted:
                     # buggify: this kind of job (optionally: only when asked for by this kind of task) is
                     # slow in this run
                     p = max(p, sb[1])
                 if p and tag not in ('fs.read', 'db.get') and self.ch.chance(p):
                     d = self.ch.delay(0.001, self.stall_max)
+                    if boosted and len(sb) > 3 and sb[3] == 'release':
+                        # parked until a job of some other task completes (or the longest stall has passed):
+                        # slow reads come back right after the state they read has changed
+                        d = self.stall_max
+                        w.release_on = True
                     w.blocked_until = self.now + d
                     self.stats['stall'] += 1
                     self.log('Wstall', w.wid, round(d, 4))
@@ -326,6 +333,12 @@ class Sim:
                 else:
                     w.fut.set_result(w.result)
             w.func = w.args = None
+            for y in self.workers:
+                if y.release_on and y.origin != w.origin and y.blocked_until > self.now and self.ch.chance(0.5):
+                    y.release_on = False
+                    y.blocked_until = self.now + self.ch.delay(0.0, 0.05)
+                    self.stats['stall_released'] += 1
+                    self.log('Wrel', y.wid, w.wid)
         else:
             self.log('Wy', w.wid, w.at_seam)
 
